@@ -25,6 +25,10 @@ UNITS = {
                 src='dora-asm/src/arm64.rs', impl='impl AssemblerArm64'),
     'x64': dict(rows='contracts/x64_requests.rs', mods=['spec/x64dec.rs'], crate='dora-asm',
                 src='dora-asm/src/x64.rs', impl='impl AssemblerX64'),
+    # private API of dora-asm/src/arm64.rs: the crate is COPIED to scratch and the rows are appended as a child module of
+    # `arm64` (one `#[path] mod` line in arm64.rs, three `mod` lines in lib.rs; nothing inside existing items is touched)
+    'a64p': dict(rows='contracts/a64p_rows.rs', mods=['spec/a64dec.rs'], crate='dora-asm', private=dict(host='src/arm64.rs', hostmod='arm64'),
+                 src='dora-asm/src/arm64.rs', impl='impl AssemblerArm64'),
     # items cut verbatim out of dora-runtime (the crate itself needs libc/mmap and is too heavy for Kani)
     'c10': dict(rows='contracts/c10_rows.rs', mods=[], crate=None, gen=lambda: _gen_c10_cut()),
 }
@@ -111,6 +115,60 @@ def public_methods(unit):
 
 def gen_crate(unit, dest):
     u = UNITS[unit]
+    if u.get('private'):
+        return gen_crate_private(unit, dest)
+    return gen_crate_public(unit, dest)
+
+
+def gen_crate_private(unit, dest):
+    """Copy the crate, append the rows as a child module of the host module. Returns (rows, harness_prefix)."""
+    u = UNITS[unit]
+    root = common.repo_root()
+    src_crate = os.path.join(root, u['crate'])
+    if os.path.exists(dest):
+        shutil.rmtree(dest)
+    shutil.copytree(src_crate, dest, ignore=shutil.ignore_patterns('target'))
+    shutil.copy(os.path.join(VERIF, 'spec', 'vp.rs'), os.path.join(dest, 'src', 'vp.rs'))
+    mods = []
+    for m in u['mods']:
+        name = os.path.basename(m)[:-3]
+        shutil.copy(os.path.join(VERIF, m), os.path.join(dest, 'src', name + '.rs'))
+        mods.append(name)
+    rows_mod = os.path.basename(u['rows'])[:-3]
+    shutil.copy(os.path.join(VERIF, u['rows']), os.path.join(dest, 'src', rows_mod + '.rs'))
+    rows = row_names(os.path.join(VERIF, u['rows']))
+    host = os.path.join(dest, u['private']['host'])
+    with open(host, 'a') as f:
+        f.write('\n// ---- appended by /verif/tools/kx.py (private-API contract rows) ----\n#[path = "%s.rs"]\npub mod %s;\n' % (rows_mod, rows_mod))
+    libname = u['crate'].replace('-', '_')
+    reg = ['// generated', 'use crate::vp::Src;', 'pub const ALL: &[(&str, fn(&mut Src))] = &[']
+    for r in rows:
+        reg.append('    ("%s", crate::%s::%s::%s::run),' % (r, u['private']['hostmod'], rows_mod, r))
+    reg.append('];')
+    with open(os.path.join(dest, 'src', 'registry.rs'), 'w') as f:
+        f.write('\n'.join(reg) + '\n')
+    with open(os.path.join(dest, 'src', 'lib.rs'), 'a') as f:
+        f.write('\n// ---- appended by /verif/tools/kx.py ----\n#[macro_use]\npub mod vp;\n' + ''.join('pub mod %s;\n' % m for m in mods)
+                + '#[cfg(not(kani))]\npub mod registry;\n')
+    os.makedirs(os.path.join(dest, 'src', 'bin'), exist_ok=True)
+    main = open(os.path.join(VERIF, 'spec', 'kx_main.rs'), encoding='utf-8').read().replace('vp_rows::', libname + '::')
+    with open(os.path.join(dest, 'src', 'bin', 'vp_run.rs'), 'w') as f:
+        f.write(main)
+    toml = open(os.path.join(dest, 'Cargo.toml'), encoding='utf-8').read()
+    toml += '\n[workspace]\n\n[lints.rust]\nunexpected_cfgs = { level = "allow", check-cfg = [\'cfg(kani)\'] }\n\n[profile.release]\ndebug-assertions = true\noverflow-checks = true\nopt-level = 1\n'
+    with open(os.path.join(dest, 'Cargo.toml'), 'w') as f:
+        f.write(toml)
+    lock = os.path.join(root, 'Cargo.lock')
+    if os.path.exists(lock):
+        shutil.copy(lock, os.path.join(dest, 'Cargo.lock'))
+    os.makedirs(os.path.join(dest, '.cargo'), exist_ok=True)
+    with open(os.path.join(dest, '.cargo', 'config.toml'), 'w') as f:
+        f.write('[net]\noffline = true\n')
+    return rows, '%s::%s' % (u['private']['hostmod'], rows_mod)
+
+
+def gen_crate_public(unit, dest):
+    u = UNITS[unit]
     root = common.repo_root()
     os.makedirs(os.path.join(dest, 'src'), exist_ok=True)
     mods = []
@@ -191,8 +249,15 @@ def parse_kani_output(out):
         m = re.search(r'Verification Time:\s*([0-9.]+)s', part)
         if m:
             d['time'] = float(m.group(1))
-        for fm in re.finditer(r'Failed Checks: (.*?)\n(\s*File: "([^"]*)", line (\d+)(?:, in (\S+))?)?', part):
-            d['failed'].append(dict(desc=fm.group(1).strip(), file=fm.group(3) or '', line=int(fm.group(4) or 0), fn=fm.group(5)))
+        chunks = part.split('Failed Checks: ')[1:]
+        for ch in chunks:
+            # the description may be pretty-printed over several lines (long assert messages); it ends at ` File: "..."`
+            fm = re.search(r'\n\s*File: "([^"]*)", line (\d+)(?:, in (\S+))?', ch)
+            if fm and '\n\n' not in ch[:fm.start()]:
+                desc = re.sub(r'\s+', ' ', ch[:fm.start()]).strip()
+                d['failed'].append(dict(desc=desc, file=fm.group(1), line=int(fm.group(2)), fn=fm.group(3)))
+            else:
+                d['failed'].append(dict(desc=ch.split('\n', 1)[0].strip(), file='', line=0, fn=None))
         m = re.search(r'(\d+) of (\d+) cover properties satisfied', part)
         if m:
             d['cover'] = (int(m.group(1)), int(m.group(2)))
@@ -216,8 +281,8 @@ def classify_check(fc, harness_dir):
     if desc.startswith('VP:') or 'VP:' in desc:
         return 'violation'
     in_harness = f.startswith(harness_dir) or '/vp_rows/' in f or f.startswith('src/')
-    if f.endswith('src/cut.rs'):
-        in_harness = False     # items cut verbatim from the repository: their panics are refusals
+    if f.endswith('src/cut.rs') or f.endswith('src/arm64.rs') or f.endswith('src/x64.rs') or f.endswith('src/lib.rs'):
+        in_harness = False     # repository code (cut verbatim, or the copied crate of a private-API unit): its panics are refusals
     if 'unwinding assertion' in desc or 'not supported' in desc or 'unsupported' in desc.lower():
         return 'undecided'
     if in_harness:
